@@ -46,8 +46,9 @@ func init() { suites["ssh"] = suiteSSH }
 type sshServer struct {
 	addr   string
 	cancel context.CancelFunc
-	mu     sync.Mutex
-	got    chan []string
+	mu      sync.Mutex
+	got     chan []string
+	release chan struct{}
 }
 
 func startSSH(dir string, anonymous bool, authorizedKeys string, cfg *rsyncdconfig.Config) (*sshServer, error) {
@@ -76,9 +77,15 @@ func startSSH(dir string, anonymous bool, authorizedKeys string, cfg *rsyncdconf
 		return nil, err
 	}
 	ctx, cancel := context.WithCancel(context.Background())
-	s := &sshServer{addr: ln.Addr().String(), cancel: cancel, got: make(chan []string, 16)}
+	s := &sshServer{addr: ln.Addr().String(), cancel: cancel, got: make(chan []string, 16), release: make(chan struct{}, 16)}
 	go anonssh.Serve(ctx, env, ln, l, cfg, func(args []string, stdin io.Reader, stdout io.Writer, stderr io.Writer) error {
 		s.got <- append([]string{}, args...)
+		// the handler answers the exec request only after it has started this function; returning at once
+		// would close the channel before the answer is out. Stay until the client has seen the answer.
+		select {
+		case <-s.release:
+		case <-time.After(3 * time.Second):
+		}
 		return nil
 	})
 	return s, nil
@@ -105,6 +112,15 @@ func shQuote(args []string) string {
 // classifyMain runs the real maincmd.Main on a command line inside a scratch directory and reports
 // the role it took, observed from outside.
 func classifyMain(scratch string, cfg *rsyncdconfig.Config, args []string) string {
+	// a command-mode receiver creates its destination directory: note which argument paths do not exist yet
+	var absent []string
+	for _, a := range args[1:] {
+		if a != "" && a != "." && !strings.HasPrefix(a, "-") {
+			if _, err := os.Lstat(a); os.IsNotExist(err) {
+				absent = append(absent, a)
+			}
+		}
+	}
 	var stdin bytes.Buffer
 	binary.Write(&stdin, binary.LittleEndian, int32(27)) // a protocol version for a command-mode server
 	stdin.WriteString("\n")                              // and (read as text) an invalid daemon greeting
@@ -139,9 +155,19 @@ func classifyMain(scratch string, cfg *rsyncdconfig.Config, args []string) strin
 		os.Remove(filepath.Join(scratch, "rsh-ran"))
 	}
 	created := false
-	if _, err := os.Stat(filepath.Join(scratch, "recvdir")); err == nil {
-		created = true
-		os.RemoveAll(filepath.Join(scratch, "recvdir"))
+	for _, a := range absent {
+		if fi, err := os.Lstat(a); err == nil && fi.IsDir() {
+			created = true
+			// remove what was created (only the first new component of a relative path lives in the working directory)
+			top := a
+			if !filepath.IsAbs(a) {
+				top = strings.SplitN(filepath.Clean(a), string(os.PathSeparator), 2)[0]
+				if top == ".." || top == "." {
+					continue
+				}
+			}
+			os.RemoveAll(top)
+		}
 	}
 	o := out.Bytes()
 	switch {
@@ -172,6 +198,11 @@ func suiteSSH(h *H) {
 	os.WriteFile(filepath.Join(modDir, "f"), []byte("data"), 0o644)
 	scratch := filepath.Join(dir, "scratch")
 	os.MkdirAll(scratch, 0o755)
+	// client-mode command lines with relative paths copy into the working directory
+	if wd, err := os.Getwd(); err == nil {
+		defer os.Chdir(wd)
+	}
+	os.Chdir(scratch)
 	rsh := filepath.Join(scratch, "rsh.sh")
 	os.WriteFile(rsh, []byte("#!/bin/sh\ntouch "+filepath.Join(scratch, "rsh-ran")+"\nexit 1\n"), 0o755)
 	cfg := &rsyncdconfig.Config{Modules: []rsyncd.Module{{Name: "m", Path: modDir}}}
@@ -319,7 +350,15 @@ func suiteSSH(h *H) {
 				drained = true
 			}
 		}
+		for drained := false; !drained; {
+			select {
+			case <-srv.release:
+			default:
+				drained = true
+			}
+		}
 		ok, err := ch.SendRequest("exec", true, ssh.Marshal(struct{ Command string }{shQuote(cmdline)}))
+		srv.release <- struct{}{}
 		out := "refused"
 		var got []string
 		if err == nil && ok {
@@ -340,6 +379,11 @@ func suiteSSH(h *H) {
 			// what the real Main does with it
 			cls = classifyMain(scratch, cfg, got)
 			out = "runs " + cls
+			if cls == "client-rsh" {
+				// whether a client-mode run gets as far as spawning its remote shell depends on the paths; the
+				// comparison with the model is on the role, the oracle below still sees the spawned shell
+				out = "runs other"
+			}
 			if _, err := os.Stat(filepath.Join(scratch, "copied")); err == nil {
 				os.RemoveAll(filepath.Join(scratch, "copied"))
 				if anonymous {
@@ -427,6 +471,9 @@ func suiteSSH(h *H) {
 	for _, c := range fixed {
 		if len(c) >= 1 {
 			cls := classifyMain(scratch, cfg, c)
+			if cls == "client-rsh" {
+				cls = "other"
+			}
 			v := ""
 			if strings.HasPrefix(cls, "panic") {
 				v = "FAIL[C08] maincmd.Main panicked: " + cls
